@@ -10,15 +10,15 @@ ENGINE = 'grid'
 TECHNIQUE = ('bounded exhaustive evaluation of the frozen function tables of C12/C18-C23 (elementary, gamma, zeta, error/exponential integrals, Bessel/Airy, '
              'hypergeometric/orthogonal, elliptic/theta/Lambert W) on their exact-argument lattices extended by edge-of-validity points, each call under a '
              'repeating-alarm watchdog; an overrun is re-run with a 4x budget before it is reported')
-RULE = ('every table entry x every lattice argument x precisions {10, 53, one of 24/70/113/200/400 by seed, 1000 for the cheap families; thorough: 2000, 3333}; '
+RULE = ('every table entry x every lattice argument x precisions {10, 53, one of 24/70/113/200/400 by seed, 1000 for the cheap families; thorough: 2000}; '
         'extra arguments where asymptotic expansions are used at the edge of their validity: |x| in [0.25,1.5]*(p+20), |z| ~ 0.11p and 0.2p, complex '
         'arguments with imaginary part between 2^-p and 2^-0.8p, equal complex arguments of agm, tiny and huge values up to 10^6.  Budget per call: 5 s '
-        '(p<=400), 20 s (1000 bits, quick: cheap families only), thorough: 150 s (1000 bits) and 400 s above (the slowest legitimate calls measured take 160 s unloaded); typical cost is milliseconds, so an overrun confirmed by a 4x re-run is reported as non-termination '
+        '(p<=400), 20 s (1000 bits, quick: cheap families only), thorough: 150 s (1000 bits) and 600 s (2000 bits) (the slowest legitimate calls measured take 160 s unloaded); typical cost is milliseconds, so an overrun confirmed by a 4x re-run is reported as non-termination '
         '(after two confirmed overruns - one at 1000 bits and above - of one function in one argument class a task skips the remaining arguments of that class and counts them). '
         'Returning or raising any documented exception (ValueError, ZeroDivisionError, NoConvergence, NotImplementedError, OverflowError) is a pass. '
         'Excluded (counted): fac2 at complex arguments with |im| > 64, whose value (pi/2)^(cosh(pi*im)/4) needs multi-million-bit argument reduction. non-trivial = every completed call; bounded statement: no hang on this lattice')
 ASSUMPTIONS = ['a call that exceeds 4x the budget (>= 20 s where normal calls take milliseconds) does not terminate in reasonable time; wall-clock based']
-BOUNDS = {'quick': '4 precisions', 'thorough': '6 precisions to 3333 bits'}
+BOUNDS = {'quick': '4 precisions', 'thorough': '5 precisions to 2000 bits'}
 
 ELEM = ['exp', 'log', 'sqrt', 'cbrt', 'sin', 'cos', 'tan', 'cot', 'sinh', 'cosh', 'tanh', 'asin', 'acos', 'atan', 'asinh', 'acosh', 'atanh', 'sinpi', 'cospi', 'expm1', 'log1p', 'sinc', 'lambertw', 'agm']
 
@@ -46,7 +46,7 @@ def extra_args(p):
 
 def precs(tier, seed):
     if tier == 'thorough':
-        return [10, 53, 200, 1000, 2000, 3333]
+        return [10, 53, 200, 1000, 2000]
     return [10, 53, [24, 70, 113, 200, 400][seed % 5]]
 
 
@@ -76,7 +76,7 @@ def budget_for(p):
         return 5
     if not THOROUGH[0]:
         return 20 if p <= 1000 else 60
-    return 150 if p <= 1000 else 400
+    return 150 if p <= 1000 else 600
 
 
 THOROUGH = [False]
